@@ -520,6 +520,21 @@ func initStubs() {
 		}
 		return ret(st, BVConst(uint64(st.Thread.rec.id), 64))
 	}
+	stubTable[zzp+"InAlphabet"] = func(e *Exec, st *State, fn *Func, args []Value, site string) []Outcome {
+		s, a := args[0].(*Term), args[1].(*Term)
+		if !a.IsConst() {
+			fail("InAlphabet: alphabet must be constant")
+		}
+		var alts []string
+		for _, c := range a.S {
+			alts = append(alts, "(str.to_re "+smtString(string(c))+")")
+		}
+		re := "(re.* (re.union " + strings.Join(alts, " ") + "))"
+		if len(alts) == 1 {
+			re = "(re.* " + alts[0] + ")"
+		}
+		return ret(st, inRe(s, re))
+	}
 	stubTable[zzp+"Symbolic"] = func(e *Exec, st *State, fn *Func, args []Value, site string) []Outcome {
 		return ret(st, True)
 	}
